@@ -264,13 +264,17 @@ P('C12', claimed=True, level='proof',
   technique='contract-based deductive verification: class invariants + two-call lemma functions over the real method bodies, z3')
 
 P('C13', claimed=True, level='other',
-  contracts=['seq_valuepatterns', 'seq_listpatterns', 'seq_filterpatterns', 'seq_oppatterns'], drivers=['vf.drivers.C13'],
+  contracts=['seq_valuepatterns', 'seq_listpatterns', 'seq_filterpatterns', 'seq_oppatterns', 'seq_eventpatterns'], drivers=['vf.drivers.C13'],
   level_text=('Generator bodies under contract with `yield` / `yield from` as ghost trace events and per-pass '
               'obligations (the inductive step of the denotation): Pseries/Pgeom (first value = start, each '
               'pass draws the step once, yields the current value, next = current (+|*) step, quiet end on '
               'exhaustion); Pseq (one repetition = items from offset to the end, then the items before it, each '
               'embedded once with the threaded input value) and Pser (pass i embeds lst[(i + offset) mod size]); '
-              'Pn (same pattern every pass; with a key: the event is marked before it goes down and unmarked at the end); Plen (one draw per pass, exactly that value yielded, quiet end); '
+              'the event patterns: Pbind (every pass a COPY of the input event is updated with ONE value per key stream, drawn in '
+              'dictionary order with the event built so far as input, and yielded; streams made once; None input and an '
+              'ended key stream end it quietly), Pchain (a copy of the input through the streams from last pattern to first), '
+              'Pevent (its own event, not the input), Pkey (the input event\'s value under the key drawn; missing key ends '
+              'it quietly); Pn (same pattern every pass; with a key: the event is marked before it goes down and unmarked at the end); Plen (one draw per pass, exactly that value yielded, quiet end); '
               'Pconst (running sum grows by exactly the yielded value, last value = total - running sum in both '
               'endings; telescoping lemma: the values add up to the total); Pstutter (one value and one count '
               'per outer pass, a copy of that value per inner pass); Pcollect (func(value, input) yielded), '
@@ -284,7 +288,7 @@ P('C13', claimed=True, level='other',
               'immutability and seeded determinism/support of random patterns are contracts of their own.'),
   level_note='Bounded: first 64 items; corners the documentation leaves open are left unspecified and listed in notes.')
 
-P('C14', claimed=True, level='other', contracts=['seq_event_keys', 'seq_ppar'], drivers=['vf.drivers.C14'],
+P('C14', claimed=True, level='other', contracts=['seq_event_keys', 'seq_ppar', 'seq_eventpatterns'], drivers=['vf.drivers.C14'],
   level_text=('The key chains are under contract (pyvc, all numeric values, any scale/tuning as uninterpreted '
               'degree_to_key / spo / octave_ratio): EventDict.__call__ (given value, else key function called '
               'with the event, else default) and every chain function of PitchKeys, DurationKeys and '
